@@ -88,9 +88,10 @@ func equalLS(a, b lockset) bool {
 }
 
 type LockInfo struct {
-	p     *Prog
-	entry map[*ssa.Function]lockset                     // must-hold at function entry
-	at    map[*ssa.Function]map[ssa.Instruction]lockset // must-hold before each instruction
+	SyncCallers map[*ssa.Function][]ssa.Instruction
+	p           *Prog
+	entry       map[*ssa.Function]lockset                     // must-hold at function entry
+	at          map[*ssa.Function]map[ssa.Instruction]lockset // must-hold before each instruction
 	// sync higher-order callees whose closure argument runs synchronously
 }
 
@@ -159,7 +160,11 @@ func (li *LockInfo) intra(f *ssa.Function, entry lockset) map[ssa.Instruction]lo
 }
 
 // Locks builds the inter-procedural must-hold information.
-func (p *Prog) Locks() *LockInfo {
+func (p *Prog) Locks() *LockInfo { return p.LocksIgnoring(nil) }
+
+// LocksIgnoring computes locksets without the call edges that leave the given
+// functions (used for the frozen exception "table creation: engine not yet published").
+func (p *Prog) LocksIgnoring(ignore map[*ssa.Function]bool) *LockInfo {
 	li := &LockInfo{p: p, entry: map[*ssa.Function]lockset{}, at: map[*ssa.Function]map[ssa.Instruction]lockset{}}
 	cg := p.CG()
 	// entry points start empty: exported functions/methods, functions with no known
@@ -170,6 +175,9 @@ func (p *Prog) Locks() *LockInfo {
 	}
 	syncCallers := map[*ssa.Function][]callerSite{}
 	for _, f := range p.Funcs {
+		if ignore[f] {
+			continue
+		}
 		for _, b := range f.Blocks {
 			for _, ins := range b.Instrs {
 				ci, ok := ins.(ssa.CallInstruction)
@@ -200,6 +208,14 @@ func (p *Prog) Locks() *LockInfo {
 						}
 					}
 				}
+			}
+		}
+	}
+	li.SyncCallers = map[*ssa.Function][]ssa.Instruction{}
+	for f, cs := range syncCallers {
+		for _, x := range cs {
+			if x.f != nil {
+				li.SyncCallers[f] = append(li.SyncCallers[f], x.site)
 			}
 		}
 	}
